@@ -269,6 +269,8 @@ def check_emit_sig(ctx, R, classes):
                     if any(e.kind in ('EXC', 'HANDLER') for e in seg):
                         if key != ('map_async', 'work_callback'):
                             continue
+                    if drain and not any(e.kind in ('EM', 'TK', 'ST') for e in seg):
+                        continue        # an idle iteration (waited, took nothing, changed nothing): not "an element"
                     n += 1
                     c = _count_class(sum(1 for e in seg if e.kind == 'EM'))
                     seen.add(c)
